@@ -41,6 +41,10 @@ CLAIMED = {
     "C12": ("trace validation of failing fills: outcome and full rollback (TLC, Raises)",
             "HgTree!Raises decides from the routing path whether a fill reaches a failing quantity; such a fill must raise and "
             "leave every slot unchanged; the final state must equal Sem of the surviving records."),
+    "C13": ("trace validation of the view accessors against the partition model Sel/ViewExpect (TLC)",
+            "View events log num_bins, bin_entries, bin_edges, bin_centers, bin_width and bin_entries(xvalues) for full-range "
+            "and sub-range queries; TLC compares them with the partition that Fill/Route use (HgViews!ViewExpect) and checks "
+            "mutual consistency; Categorize labels/entries/mpv and the 2-D grid and x/y projections likewise."),
     "C15": ("TLC-enumerated single-point mutations of real documents, judged by the three-valued Parse (TLC)",
             "HgDoc!MutIds enumerates every single-point structural mutation (delete/add key, retype, rename type, drop "
             "list element, version) of documents produced by toJson; each mutant is fed to Factory.fromJson and TLC "
